@@ -9,7 +9,7 @@ if not os.path.exists(wt):
     subprocess.check_call(["git", "-C", "/repo", "worktree", "add", "-q", "--detach", wt, "HEAD"])
 d = [json.loads(l) for l in open("/verif/properties.jsonl")]
 d = [x for x in d if x["id"] == pid][0]
-letters = {1: "abcdef", 2: "cdefgh", 3: "efghij", 4: "ghijkl"}[WAVE][:n]
+letters = {1: "abcdef", 2: "cdefgh", 3: "efghij", 4: "ghijkl", 5: "ijklmn"}[WAVE][:n]
 anch = d["anchors"]
 mech = "\n".join(f"  - {m['name']} ({m['where']})" for m in anch.get("mechanism", []))
 state = "\n".join(f"  - {m['name']}: {m.get('meaning','')} ({m['where']})" for m in anch.get("state", []))
@@ -54,6 +54,7 @@ the property.
 {"This is a SECOND round: an earlier round already produced the most natural slips (dropped copies / aliasing of int8 arrays, parallel-edge overwrites, nx/ny swaps, off-by-one thresholds, one-shot iterators, unseeded RNG draws). Look for DIFFERENT mechanisms and clauses of the property than those: less-travelled clauses of the statement, interactions between two functions, behaviour that depends on call order or on cached state, inputs at the edge of the quantified domain." if WAVE > 1 else ""}
 {"THIRD round: two earlier rounds also used up: memoisation keyed on id()/sizes, np.sum-instead-of-np.any on crossing vectors (opposite signs cancel), ties / exact-boundary comparisons (< vs <=, heaviside), early-return rewrites, dropped transposes, in-place edits of cached arrays, float-rounded integer arithmetic for huge n. Find something else again: e.g. a fault that needs a SEQUENCE of three operations, a dependence on dtype or memory layout (F-ordered, non-contiguous, uint, float crossings), an index that is wrong only for the LAST/FIRST element or when two indices coincide, a default argument, sorting stability, an iteration order, negative indices, empty selections. Do NOT use git stash (shared between worktrees)." if WAVE > 2 else ""}
 {"FOURTH round: also used up by now: dependence on the dtype / container / memory layout of an argument, float32 inputs, narrow-integer overflow. Look elsewhere once more: a non-default value of an OPTIONAL argument (return_edge_removal=True, all_solutions / n_solutions combinations, early_stopping, shortest_edges_only, use_point_averages, shift_vertices, real=False, directions / arrow options, return_points ...), the SMALLEST sizes of the quantified domain (2 seed points, n = 2, a single plaquette, one edge), the LAST plaquette / last edge / last vertex, a wrong EXCEPTION TYPE or a swallowed exception, a result that is right but returned in another ORDER or with another SHAPE (row vs column, (n,) vs (n,1)), two koala functions that must agree with each other (a helper and a table, a plot helper and the function it visualises), numerical cancellation at exactly representable coordinates." if WAVE > 3 else ""}
+{"FIFTH round: also used up: non-default optional arguments, smallest sizes, last/first element, 0-d vs 1-d shapes, keyword-vs-positional calls, island components, ints-vs-floats returned by user callbacks. Ideas not yet tried: a fault that needs TWO independent features at once (open boundary AND parallel edges; odd size AND rectangular; a pinched face AND a dangling edge; shift_vertices AND a seed on the cell boundary), integer division / modulo of NEGATIVE numbers, boolean-mask vs integer-index confusion, np.unique / np.sort / argsort semantics (axis argument, stability, return_inverse shape), off-by-one at the UPPER end of the quantified ranges (the largest sizes / sample counts named in the quantifier), idempotence (calling the same operation twice on its own output), an attribute cached ON the lattice object by one function and read by another, behaviour that differs between a view and a copy returned to the caller (aliasing of RESULTS with internal state, so that mutating a returned array corrupts later calls)." if WAVE > 4 else ""}
 
 For each change (call them {', '.join(letters)}) write into {wt}/out/<letter>/ :
  - patch.diff  (`git diff` in the worktree with only that change applied)
